@@ -139,6 +139,8 @@ pub enum PTy {
     Callback,
     /// `int (*(*make)(int))(int, double)`: a function returning a callback
     CallbackFactory,
+    /// `cb_fn_t *cb` with `typedef int cb_fn_t(int, double);` (pointer to a typedef'd function type)
+    CallbackTypedef,
 }
 
 #[derive(Clone, Debug, Serialize, Deserialize, PartialEq, Eq)]
@@ -162,6 +164,9 @@ pub struct Func {
     pub awkward_name: Option<u8>,
     /// parameter names taken from Rust keywords
     pub keyword_params: bool,
+    /// `__attribute__((ms_abi))`: a second calling convention in the same library
+    #[serde(default)]
+    pub ms_abi: bool,
 }
 
 #[derive(Clone, Debug, Serialize, Deserialize, PartialEq, Eq)]
@@ -258,6 +263,9 @@ impl Lib {
                 f.ret = RTy::Void;
                 f.variadic = None;
             }
+            if f.variadic.is_some() {
+                f.ms_abi = false;
+            }
             if let Some(a) = f.awkward_name {
                 if !used_names.insert(a as usize % AWKWARD_NAMES.len()) {
                     f.awkward_name = None;
@@ -324,6 +332,7 @@ impl Lib {
             PTy::ArrayParam(s, len) => format!("{} {n}[{len}]", s.c()),
             PTy::Callback => format!("int (*{n})(int, double)"),
             PTy::CallbackFactory => format!("int (*(*{n})(int))(int, double)"),
+            PTy::CallbackTypedef => format!("cb_fn_t *{n}"),
         }
     }
     fn c_ret(&self, r: &RTy) -> String {
@@ -344,7 +353,7 @@ impl Lib {
         if ps.is_empty() {
             ps.push("void".into());
         }
-        format!("{}{} {}({})", if f.noreturn { "__attribute__((noreturn)) " } else { "" }, self.c_ret(&f.ret), self.fname(k), ps.join(", "))
+        format!("{}{}{} {}({})", if f.noreturn { "__attribute__((noreturn)) " } else { "" }, if f.ms_abi { "__attribute__((ms_abi)) " } else { "" }, self.c_ret(&f.ret), self.fname(k), ps.join(", "))
     }
 
 
@@ -393,6 +402,7 @@ impl Lib {
                     }
                     PTy::Callback => s.push_str(&format!("  h = step(h, {n} ? (unsigned long long)(long long){n}((int)(h & 0xffff), 2.5) : 99ULL);\n")),
                     PTy::CallbackFactory => s.push_str(&format!("  h = step(h, (unsigned long long)(long long){n}(7)((int)(h & 0xffff), 2.5));\n")),
+                    PTy::CallbackTypedef => s.push_str(&format!("  h = step(h, {n} ? (unsigned long long)(long long){n}((int)(h & 0xffff), 2.5) : 99ULL);\n")),
                 }
             }
             if let Some(nv) = f.variadic {
@@ -433,7 +443,7 @@ impl Lib {
     pub const HELPERS: &'static str = "#define step(h, v) (((unsigned long long)(h) ^ (unsigned long long)(v)) * 1099511628211ULL)\n#define fbits(f) ((unsigned long long)__builtin_bit_cast(unsigned int, (float)(f)))\n#define dbits(d) (__builtin_bit_cast(unsigned long long, (double)(d)))\n";
 
     pub fn header(&self) -> String {
-        let mut s = String::from("#ifndef LIB_H\n#define LIB_H\nenum Color { RED, GREEN = 5, BLUE = -2 };\n");
+        let mut s = String::from("#ifndef LIB_H\n#define LIB_H\nenum Color { RED, GREEN = 5, BLUE = -2 };\ntypedef int cb_fn_t(int, double);\n");
         for sc in Sc::ALL {
             s.push_str(&format!("typedef {} td_{};\n", sc.c(), sc.c().replace(' ', "_")));
         }
@@ -492,10 +502,11 @@ pub fn lib_strategy() -> BoxedStrategy<Lib> {
         1 => (sc.clone(), 0u8..5).prop_map(|(s, n)| PTy::ArrayParam(s, n)),
         1 => Just(PTy::Callback),
         1 => Just(PTy::CallbackFactory),
+        1 => Just(PTy::CallbackTypedef),
     ];
     let rty = prop_oneof![2 => Just(RTy::Void), 6 => sc.clone().prop_map(RTy::Sc), 4 => any::<u16>().prop_map(RTy::Struct), 1 => Just(RTy::Enum), 1 => Just(RTy::Ptr)];
-    let func = (proptest::collection::vec(pty, 0..9), rty, proptest::option::weighted(0.12, 0u8..7), proptest::bool::weighted(0.03), proptest::option::weighted(0.12, any::<u8>()), proptest::bool::weighted(0.15))
-        .prop_map(|(params, ret, variadic, noreturn, awkward_name, keyword_params)| Func { params, ret, variadic, noreturn, awkward_name, keyword_params });
+    let func = (proptest::collection::vec(pty, 0..9), rty, proptest::option::weighted(0.12, 0u8..7), proptest::bool::weighted(0.03), proptest::option::weighted(0.12, any::<u8>()), proptest::bool::weighted(0.15), proptest::bool::weighted(0.15))
+        .prop_map(|(params, ret, variadic, noreturn, awkward_name, keyword_params, ms_abi)| Func { params, ret, variadic, noreturn, awkward_name, keyword_params, ms_abi });
     (proptest::collection::vec(sdef, 1..6), proptest::collection::vec(func, 1..16), proptest::collection::vec((sc, any::<bool>()), 0..5))
         .prop_map(|(structs, funcs, globals)| {
             let mut l = Lib { structs, funcs, globals };
@@ -687,7 +698,7 @@ impl C04 {
                             s.push_str("    h = step(h, (the_cb((h & 0xffff) as ::std::os::raw::c_int, 2.5) as i64) as u64);\n");
                             args.push("Some(the_factory)".into());
                         }
-                        PTy::Callback => {
+                        PTy::Callback | PTy::CallbackTypedef => {
                             let pass_none = word(&mut st) % 4 == 0;
                             if pass_none {
                                 s.push_str("    h = step(h, 99u64);\n");
@@ -808,6 +819,12 @@ impl Property for C04 {
         let mut flags: Vec<String> = vec!["--no-include-path-detection".into(), "--formatter=none".into()];
         flags.extend(case.flags.iter().cloned());
         // C-unwind does not exist at Rust 1.64 (bindgen then leaves such functions out: C14's subject)
+        // overriding the ABI of a function that has its own calling convention is the user's mistake
+        if lib.funcs.iter().any(|f| f.ms_abi) {
+            if let Some(p) = flags.iter().position(|f| f == "--override-abi") {
+                flags.drain(p..p + 2);
+            }
+        }
         let unwind = flags.iter().any(|f| f == "--override-abi");
         if unwind {
             if let Some(p) = flags.iter().position(|f| f == "--rust-target") {
@@ -905,7 +922,7 @@ impl Property for C04 {
             if f.awkward_name.is_some() {
                 out.class("fn:keyword-name");
             }
-            if f.params.iter().any(|p| matches!(p, PTy::Callback | PTy::CallbackFactory)) {
+            if f.params.iter().any(|p| matches!(p, PTy::Callback | PTy::CallbackFactory | PTy::CallbackTypedef)) {
                 out.class("fn:callback");
             }
             if agg || f.params.len() > 6 {
